@@ -128,6 +128,23 @@ def run(ctx):
     if float(EPS) != NE.EPSILON or digits_default != NE.DEFAULT_DIGITS:
         ctx.violation("config:environment-setting-not-honoured", ctx.notes["config"])
     sub, nsub = ctx.params.get("sub", 0), ctx.params.get("nsub", 1)
+    # ---- (d) whole conditions printed under this configuration (str / print of a parsed precondition) --------
+    if sub == 0:
+        for cond, vals in (("(= (x) 0.5)", [(Fraction(1, 2), True), (Fraction(3, 4), False)]),
+                           ("(>= (y) (* 0.25 (x)))", [(Fraction(1), None)]),
+                           ("(= (+ (x) (y)) 1.5)", [(Fraction(1), None)])):
+            ctx.count("compared:condition-printed-under-config")
+            try:
+                d_ = lib.parse_domain_text(DOMAIN_T.format(actions=f"(:action a :parameters () :precondition (and {cond}) :effect (and (ok)))"))
+                pre = d_.actions["a"].preconditions
+                texts = [str(pre), pre.print(should_simplify=True), pre.print(should_simplify=False)]
+                for t_ in texts:
+                    back = sx.read(t_)
+                    if not isinstance(back, list) or back[0] != "and" or len(back) < 2:
+                        ctx.violation("print:condition-lost-under-this-configuration", {"condition": cond, "printed": t_, "config": ctx.notes["config"]})
+            except BaseException as e:
+                ctx.violation("print:precondition-cannot-be-printed-under-this-configuration",
+                              {"condition": cond, "observed": lib.exc_name(e), "config": ctx.notes["config"]})
     dom0 = lib.parse_domain_text(DOMAIN_T.format(actions=""))
     funcs = dom0.functions
 
